@@ -148,7 +148,7 @@ func (e *Engine) checkProperty(prop, tier string, par int, writeLedger bool) int
 		seen := map[string]bool{}
 		var names []string
 		for _, o := range rr.obls {
-			if ledgerKind(o.Kind) && !seen[o.base()] {
+			if (ledgerKind(o.Kind) || (o.Kind == "pre" && strings.Contains(o.Name, "#pre.go."))) && !seen[o.base()] {
 				seen[o.base()] = true
 				n := o.base()
 				if hasProp(o.Props, "thorough") || (o.fc != nil && o.fc.c != nil && o.fc.c.ThoroughOnly) {
